@@ -12,7 +12,7 @@
 (* so every bad event of the file is reported in one pass; the driver also *)
 (* checks that every line was consumed (number of states).                 *)
 (***************************************************************************)
-EXTENDS Suffix, TLC, Json, IOUtils
+EXTENDS Suffix, Editor, TLC, Json, IOUtils
 
 Rec == ndJsonDeserialize(IOEnv.TRACE)
 N == Len(Rec)
@@ -42,15 +42,32 @@ SuffixConforms(e) ==
                                                      PathSuffixSegs(Parts(e.v).path, Parts(e.p).path))
                          /\ e.query = Parts(e.v).query /\ e.fragment = Parts(e.v).fragment
 
+(* ---- one mutating call on an owned buffer, judged from the implementation's own *)
+(* ---- previous text (C04, C05, C06, C10, C11)                                    *)
+EditConforms(e) ==
+    /\ e.panic = FALSE
+    /\ e.post \in EditApply(e.fam, e.kind, e.pre, [op |-> e.op, arg |-> e.arg])
+
 Conforms(e) ==
     CASE e.ev = "rel"    -> RelConforms(e)
+      [] e.ev = "edit"   -> EditConforms(e)
       [] e.ev = "suffix" -> SuffixConforms(e)
       [] OTHER -> FALSE
+
+(* what kind of non-conformance: the call panicked / left an ill-formed text / gave an *)
+(* unexpected (but well-formed) result                                                  *)
+Why(e) ==
+    IF e.panic THEN "panic"
+    ELSE IF e.ev = "edit" /\ ~InLang(RefType(e.fam, IF e.op = "resolve" THEN "full" ELSE e.kind), e.post) THEN "invalid"
+    ELSE "unexpected"
+
+(* what the specification admits, for the report *)
+Expected(e) == IF e.ev = "edit" THEN EditApply(e.fam, e.kind, e.pre, [op |-> e.op, arg |-> e.arg]) ELSE {}
 
 Init == c = 0 /\ l = 0
 Pick == c = 0 /\ c' \in 1..K /\ l' = Lo(c')
 Consume == /\ c # 0 /\ l <= Hi(c)
-        /\ (~Conforms(Rec[l]) => PrintT(ToJson([nonconf |-> l, event |-> Rec[l]])))
+        /\ (~Conforms(Rec[l]) => PrintT(ToJson([nonconf |-> l, event |-> Rec[l], why |-> Why(Rec[l]), expected |-> Expected(Rec[l])])))
         /\ l' = l + 1 /\ c' = c
 Next == Pick \/ Consume
 =============================================================================
